@@ -35,6 +35,7 @@
 #include <sys/wait.h>
 #include <xmp.h>
 #include "common.h"
+#include "rng.h"
 
 #define NGROUP 8
 #define NFREE 3
@@ -159,6 +160,10 @@ static int run_case(const char *path, const unsigned char *data, long size, uint
 			printf("skip %s\n", path);
 			return 0;
 		}
+		/* the context's private RNG (IT random volume/pan variation, random LFO waveform) is seeded from
+		 * time(NULL) in xmp_create_context: give all contexts of the case the same state, otherwise
+		 * contexts created across a one-second boundary legitimately render different audio */
+		libxmp_set_random(&((struct context_data *)c[i])->rng, 0x13572468u ^ (unsigned)cseed);
 		nctx++;
 	}
 	xmp_get_module_info(c[0], &mi);
